@@ -87,13 +87,23 @@ Corpus(p) == [key |-> KeyOf(p), m |-> PatM(p) \cap Docs]
 
 NoSR == [hits |-> <<>>, total |-> 0, ft |-> [s \in FS |-> EmptyFR], fn |-> [s \in FS |-> EmptyFR]]
 
+NoReq == [from |-> 0, size |-> 0, sort |-> <<>>, mode |-> "page", cursor |-> <<>>]
+
+(* the case: corpus, tree, assignment ... *)
 Init ==
   /\ corpus \in {Corpus(p) : p \in PatIds}
   /\ root \in {Tree(t) : t \in TreeIds}
   /\ assign \in [Docs -> Leaves(root)]
-  /\ req \in Requests(corpus.key)
-  /\ pc = "start" /\ rreq = req /\ creq = req /\ pending = {} /\ got = FALSE
+  /\ req = NoReq
+  /\ pc = "pick" /\ rreq = NoReq /\ creq = NoReq /\ pending = {} /\ got = FALSE
   /\ acc = NoSR /\ res = NoSR /\ want = NoSR
+
+(* ... and the request (a step of its own so that TLC's workers share the work) *)
+PickRequest ==
+  /\ pc = "pick"
+  /\ req' \in Requests(corpus.key)
+  /\ pc' = "start"
+  /\ UNCHANGED <<corpus, root, assign, rreq, creq, pending, got, acc, res, want>>
 
 VisibleSR(s) == [hits |-> s.hits, total |-> s.total,
                  ft |-> [z \in FS |-> Visible(s.ft[z])], fn |-> [z \in FS |-> Visible(s.fn[z])]]
@@ -146,14 +156,14 @@ ReverseBackStep ==
   /\ pc' = "done"
   /\ UNCHANGED <<corpus, root, assign, req, rreq, creq, pending, got, acc, want>>
 
-Next == ShortCircuit \/ ChildRequest \/ (\E i \in pending : ChildSearch(i))
+Next == PickRequest \/ ShortCircuit \/ ChildRequest \/ (\E i \in pending : ChildSearch(i))
         \/ MergeHits \/ PageSlice \/ FixupFacets \/ ReverseBackStep
 
 Spec == Init /\ [][Next]_vars
 
 -----------------------------------------------------------------------------
 TypeOK ==
-  /\ pc \in {"start", "children", "slice", "fixup", "reverse", "done"}
+  /\ pc \in {"pick", "start", "children", "slice", "fixup", "reverse", "done"}
   /\ pending \subseteq 1..4
 
 ChildRequestOK ==
@@ -195,12 +205,13 @@ EnumInit ==
   /\ corpus \in {Corpus(p) : p \in PatIds}
   /\ root \in {Tree(t) : t \in TreeIds}
   /\ assign \in [Docs -> Leaves(root)]
-  /\ req \in Requests(corpus.key)
-  /\ pc = "enum" /\ rreq = req /\ creq = req /\ pending = {} /\ got = FALSE
+  /\ req = NoReq
+  /\ pc = "enum" /\ rreq = NoReq /\ creq = NoReq /\ pending = {} /\ got = FALSE
   /\ acc = NoSR /\ res = NoSR /\ want = NoSR
 EnumStep ==
   /\ pc = "enum" /\ pc' = "done"
-  /\ want' = VisibleSR(Single(X, req))
-  /\ UNCHANGED <<corpus, root, assign, req, rreq, creq, pending, got, acc, res>>
+  /\ req' \in Requests(corpus.key)
+  /\ want' = VisibleSR(Single(X, req'))
+  /\ UNCHANGED <<corpus, root, assign, rreq, creq, pending, got, acc, res>>
 EnumSpec == EnumInit /\ [][EnumStep]_vars
 =============================================================================
